@@ -50,6 +50,7 @@ bool has_name( void const* addr );
 
 // client events (only meaningful from a scheduled thread)
 int current_tid();
+void set_quiet( bool q );           // while quiet, the calling thread's atomic operations are neither scheduling points nor traced (it keeps the baton)
 uint64_t tick();                       // logical clock: real-time order of CALL/RET events
 void ev_note( std::string const& s );  // free-form line attached to the current thread: "T <tid> <s>"
 
